@@ -96,6 +96,9 @@ type c18Case struct {
 	Roots []int     `json:"roots,omitempty"`
 	Parts int       `json:"parts,omitempty"`
 	Wt    [][]mon.F `json:"wt,omitempty"` // edge weights (may be infinite), nil = unweighted
+	// WtSeed != 0 (generated graphs): edge weights are drawn from this seed by
+	// c18SeedWeights instead of being listed in Wt.
+	WtSeed uint64 `json:"wt_seed,omitempty"`
 	// Rep: the Go type through which the library sees the graph: 0 a pointer
 	// (*c18G), 1 the library's own slice type graph.IntGraph, 2 a struct held
 	// by value (c18VG; contains a slice, so it is not comparable).
@@ -587,6 +590,8 @@ func (j *c18J) run() {
 				wt[u] = mon.Un(c.Wt[u])
 			}
 			j.simplify(wt)
+		} else if c.WtSeed != 0 {
+			j.simplify(c18SeedWeights(adj, c.WtSeed))
 		}
 	}
 	if c.Parts&c18pBi != 0 {
@@ -929,41 +934,71 @@ func (j *c18J) simplify(wt [][]float64) {
 			w.Eval("simplified.Out")
 			dyadic := wt == nil || c18SmallDyadic(wt[u])
 			w.HitIf(!dyadic, "weighted-nondyadic")
+			// long lists: the same definitional quantities (distinct successors,
+			// per-successor count, sum in adjacency order, parts) through maps
+			// instead of the quadratic scans
+			var long map[int]*c18Agg
+			if len(l) > c18LongList {
+				long = c18Aggregate(l, wt, u)
+				w.Hit("simplify-long-adjacency-list")
+			}
 			distinct := 0
-			for k, v := range l {
-				first := true
-				for _, x := range l[:k] {
-					if x == v {
-						first = false
-						break
+			if long != nil {
+				distinct = len(long)
+			} else {
+				for k, v := range l {
+					first := true
+					for _, x := range l[:k] {
+						if x == v {
+							first = false
+							break
+						}
+					}
+					if first {
+						distinct++
 					}
 				}
-				if first {
-					distinct++
-				}
+			}
+			var seenOut map[int]bool
+			if long != nil {
+				seenOut = make(map[int]bool, len(out))
 			}
 			if len(out) != distinct {
 				problem = fmt.Sprintf("node %d: Out=%v, but the distinct successors of %v number %d", u, c18Short(out, nil), c18Short(l, nil), distinct)
 				return
 			}
 			for e, t := range out {
-				for _, x := range out[:e] {
-					if x == t {
-						problem = fmt.Sprintf("node %d: Out=%v names successor %d twice", u, c18Short(out, nil), t)
+				if long != nil {
+					if seenOut[t] {
+						problem = fmt.Sprintf("node %d: Out (len %d, the list has %d edges to %d distinct successors) names successor %d twice", u, len(out), len(l), distinct, t)
 						return
+					}
+					seenOut[t] = true
+				} else {
+					for _, x := range out[:e] {
+						if x == t {
+							problem = fmt.Sprintf("node %d: Out=%v names successor %d twice", u, c18Short(out, nil), t)
+							return
+						}
 					}
 				}
 				sum, sumAbs, cnt := 0.0, 0.0, 0
 				var part []float64
-				for k, v := range l {
-					if v == t {
-						cnt++
-						if wt != nil {
-							sum += wt[u][k]
-							sumAbs += math.Abs(wt[u][k])
-							part = append(part, wt[u][k])
-						} else {
-							sum++
+				if long != nil {
+					if a := long[t]; a != nil {
+						sum, sumAbs, cnt, part = a.sum, a.sumAbs, a.cnt, a.part
+					}
+				} else {
+					for k, v := range l {
+						if v == t {
+							cnt++
+							if wt != nil {
+								sum += wt[u][k]
+								sumAbs += math.Abs(wt[u][k])
+								part = append(part, wt[u][k])
+							} else {
+								sum++
+							}
 						}
 					}
 				}
@@ -1018,6 +1053,38 @@ func (j *c18J) simplify(wt [][]float64) {
 	}) && problem != "" {
 		j.bad("simplify", op+": "+problem)
 	}
+}
+
+// c18LongList: adjacency lists longer than this are judged through
+// c18Aggregate (linear) instead of the quadratic scans.
+const c18LongList = 48
+
+// c18Agg: the edges of one node to one successor: how many, their weights in
+// adjacency order and the sums of these (1 per edge when unweighted).
+type c18Agg struct {
+	cnt         int
+	sum, sumAbs float64
+	part        []float64
+}
+
+func c18Aggregate(l []int, wt [][]float64, u int) map[int]*c18Agg {
+	m := make(map[int]*c18Agg, len(l))
+	for k, v := range l {
+		a := m[v]
+		if a == nil {
+			a = &c18Agg{}
+			m[v] = a
+		}
+		a.cnt++
+		if wt != nil {
+			a.sum += wt[u][k]
+			a.sumAbs += math.Abs(wt[u][k])
+			a.part = append(a.part, wt[u][k])
+		} else {
+			a.sum++
+		}
+	}
+	return m
 }
 
 // c18JudgeExtremeSum judges the merged weight got of parallel edges whose
@@ -2897,10 +2964,157 @@ func c18Shape(shape string, n int, param uint64) (adj [][]int, root int) {
 				adj[i][0] = 0
 			}
 		}
+	case "randmulti":
+		// random multigraph of any size: parallel edges to an earlier successor
+		// of the same node (with other successors in between), self-loops,
+		// local and far targets, nodes without edges
+		prof := rng.Intn(4) // 0 sparse, 1 medium, 2 dense (smaller graphs), 3 local (large components, deep recursion)
+		if prof == 2 && n > 20000 {
+			prof = 1
+		}
+		for u := range adj {
+			var d int
+			switch prof {
+			case 0:
+				d = rng.PickI(0, 1, 1, 1, 2, 3, 4)
+			case 2:
+				d = rng.Range(4, 24)
+			default:
+				d = rng.Intn(9)
+			}
+			l := make([]int, 0, d)
+			for k := 0; k < d; k++ {
+				var v int
+				switch {
+				case len(l) > 0 && rng.Intn(3) == 0:
+					v = l[rng.Intn(len(l))]
+				case rng.Intn(12) == 0:
+					v = u
+				case prof == 3 || rng.Intn(4) == 0:
+					v = u + rng.Range(-8, 8)
+					if v < 0 || v >= n {
+						v = rng.Intn(n)
+					}
+				default:
+					v = rng.Intn(n)
+				}
+				l = append(l, v)
+			}
+			adj[u] = l
+		}
+		root = rng.Intn(n)
+	case "hubmulti":
+		// a sparse random graph with one to three hubs whose adjacency lists
+		// have about n/2..2n edges (at most 60000) over a range of targets, each
+		// target repeated 1..16 times on average at scattered positions
+		for u := range adj {
+			for k := rng.PickI(0, 1, 1, 2); k > 0; k-- {
+				adj[u] = append(adj[u], rng.Intn(n))
+			}
+		}
+		root = rng.Intn(n)
+		for h := 1 + rng.Intn(3); h > 0; h-- {
+			u := rng.PickI(0, n-1, root, rng.Intn(n), rng.Intn(n))
+			d := rng.Range(n/2+1, 2*n)
+			if d > 60000 {
+				d = rng.Range(30000, 60000)
+			}
+			span := d / rng.PickI(1, 2, 4, 16)
+			if span < 1 {
+				span = 1
+			}
+			if span > n {
+				span = n
+			}
+			// (the library's per-node clearing of a map that has once held
+			// `span` keys costs O(span) for every later node: keep
+			// span * (nodes after the hub) moderate by moving a wide hub
+			// towards the end)
+			if after := 30000000 / span; n-1-u > after {
+				u = n - 1 - rng.Intn(after+1)
+			}
+			lo := rng.Intn(n - span + 1)
+			l := append(make([]int, 0, len(adj[u])+d), adj[u]...)
+			for k := 0; k < d; k++ {
+				l = append(l, lo+rng.Intn(span))
+			}
+			adj[u] = l
+		}
 	default:
 		panic("unknown shape " + shape)
 	}
 	return adj, root
+}
+
+// c18MultiShapes: the generated random multigraphs of the large-multigraphs
+// class (see c18Shape).
+var c18MultiShapes = []string{"randmulti", "hubmulti"}
+
+// c18SeedWeights draws the edge weights of a generated graph from a seed: all
+// small dyadic (sums exact in every order), all decimal fractions and wide
+// magnitudes (sums judged with the rounding allowance), or one of the two per
+// node.
+func c18SeedWeights(adj [][]int, seed uint64) [][]float64 {
+	rng := mon.NewRand(seed, mon.HashStr("c18-weights"), uint64(len(adj)))
+	mode := rng.Intn(3)
+	wt := make([][]float64, len(adj))
+	for u, l := range adj {
+		wt[u] = make([]float64, len(l))
+		m := mode
+		if m == 2 {
+			m = rng.Intn(2)
+		}
+		for k := range l {
+			var x float64
+			if m == 0 {
+				x = float64(rng.Range(-128, 128)) / 8
+			} else {
+				x = rng.Pick(0.1, 0.2, 0.3, 1.0/3, 0.7, 1e-3, math.Pi, 1<<24+1, 1e9+0.5, float64(rng.Intn(1000))/10, rng.Float64(), rng.LogUniform(1e-30, 1e30))
+				if rng.Intn(6) == 0 {
+					x = -x
+				}
+			}
+			wt[u][k] = x
+		}
+	}
+	return wt
+}
+
+// c18MultiClasses records the input-side classes of a large multigraph.
+func c18MultiClasses(w *mon.W, adj [][]int) {
+	n, m, maxDeg, maxDistinct := len(adj), 0, 0, 0
+	gap, loops := false, false
+	targets := map[int]bool{}
+	for u, l := range adj {
+		m += len(l)
+		if len(l) > maxDeg {
+			maxDeg = len(l)
+		}
+		last := make(map[int]int, len(l))
+		for k, v := range l {
+			if p, ok := last[v]; ok && p < k-1 {
+				gap = true
+			}
+			last[v] = k
+			if v == u {
+				loops = true
+			}
+			targets[v] = true
+		}
+		if len(last) > maxDistinct {
+			maxDistinct = len(last)
+		}
+	}
+	w.HitIf(gap, "large-multigraph-parallel-edges-with-other-successors-between")
+	w.HitIf(loops, "large-multigraph-self-loops")
+	w.HitIf(n >= 10000, "large-multigraph-nodes>=10000")
+	w.HitIf(n >= 50000, "large-multigraph-nodes>=50000")
+	w.HitIf(m >= 50000, "large-multigraph-edges>=50000")
+	w.HitIf(m >= 200000, "large-multigraph-edges>=200000")
+	w.HitIf(len(targets) >= 10000, "large-multigraph-distinct-targets>=10000")
+	w.HitIf(maxDeg >= 1024, "large-multigraph-list>=1024-edges")
+	w.HitIf(maxDeg >= 20000, "large-multigraph-list>=20000-edges")
+	w.HitIf(maxDistinct >= 5000, "large-multigraph-list>=5000-distinct-successors")
 }
 
 var c18Pieces = []string{`"`, `\`, `{`, `}`, `<`, `>`, `|`, "\n", `\n`, `\"`, `\\`, "é", "日本", "😀", " ", "\t", "\r", ";", ",", "]", "[", "=", "->", "a", "Z", "0", "n1", "\x00", "\xff", "\xc3", "%d", "%s", "%!", "//", "/*", "#", "label", "digraph", "\\\n"}
@@ -3860,11 +4074,12 @@ func c18GenMarks(rng *mon.Rand, idx int) [][2]int {
 }
 
 func c18Run(r *mon.Run) {
-	r.Rule("graphs: every digraph on <=4 nodes (adjacency matrix, self-loops included) and every multigraph on <=3 nodes with out-degree <=3 in every adjacency order, each with every root and all oracles; digraphs on 5 nodes (quick: fixed 2^17 subsample, thorough: all 2^25) with orders/Euler/SCC/SimplifyMulti/MakeBiGraph; all ordered pairs of multigraphs on <=2 nodes for Equal; seeded random multigraphs <=60 nodes; seeded random multigraphs of 61..999 nodes; structured graphs of 1000..100000 nodes (Equal on all of them, Subgraph* and Dot on the smaller ones); Equal on all ordered pairs of 3-node multigraphs differing in one list and on crafted pairs whose lists agree in length, sum, xor, sum of squares or residues mod 64; subgraphs of subgraphs and other library results handed back as input graphs; argument slices of SubgraphKeep/SubgraphRemove overwritten after the call; one Dot.Print call on a seeded random multigraph with standard output redirected; NodeMarks histories against a set model; DotString on all strings of <=3 bytes over a 14-byte hostile alphabet plus seeded hostile strings. Non-trivial: a case hitting any class; distinct by hash of the graph, roots and selections (or of the history/string).")
+	r.Rule("graphs: every digraph on <=4 nodes (adjacency matrix, self-loops included) and every multigraph on <=3 nodes with out-degree <=3 in every adjacency order, each with every root and all oracles; digraphs on 5 nodes (quick: fixed 2^17 subsample, thorough: all 2^25) with orders/Euler/SCC/SimplifyMulti/MakeBiGraph; all ordered pairs of multigraphs on <=2 nodes for Equal; seeded random multigraphs <=60 nodes; seeded random multigraphs of 61..999 nodes; structured graphs of 1000..100000 nodes (Equal on all of them, Subgraph* and Dot on the smaller ones); generated random multigraphs of 1000..100000 nodes (sizes at and just beyond powers of two, 1000, 5000, 10000, 20000, 50000, 100000, then log-uniform sizes; up to several 100000 edges; parallel edges to an earlier successor with other successors between, self-loops; hubs with up to 60000 edges over up to tens of thousands of distinct successors) with seeded dyadic and general weights: orders/Euler/SCC/SimplifyMulti/MakeBiGraph/Equal on all, Subgraph* on those of <=20000 nodes and every fourth larger one, Dot on a quarter of those of <=20000 nodes; Equal on all ordered pairs of 3-node multigraphs differing in one list and on crafted pairs whose lists agree in length, sum, xor, sum of squares or residues mod 64; subgraphs of subgraphs and other library results handed back as input graphs; argument slices of SubgraphKeep/SubgraphRemove overwritten after the call; one Dot.Print call on a seeded random multigraph with standard output redirected; NodeMarks histories against a set model; DotString on all strings of <=3 bytes over a 14-byte hostile alphabet plus seeded hostile strings. Non-trivial: a case hitting any class; distinct by hash of the graph, roots and selections (or of the history/string).")
 	r.Assume("reference: iterative definitional DFS, BFS reachability, mutual-reachability SCC (<=64 nodes) and iterative Kosaraju (large), cross-checked at start-up; Dot text is read back by a small tokenizer/parser with backslash unescaping",
 		"Dot node ids are assumed to be written n<i>; attribute and edge order in the text is free",
 		"in-domain inputs only: node ids >= 0 for Mark/Unmark, SubgraphKeep edges between kept nodes without duplicates (SubgraphRemove lists may repeat entries: removal is by set)",
 		"strings (graph name, Label results, string attribute values) must appear as quoted strings; int/uint/float64/DotLiteral values as bare words; the default label (Label nil) may be a quoted or a bare numeral",
+		"adjacency lists of more than 48 edges are judged for SimplifyMulti through a map from successor to (count, weights in adjacency order), the same quantities the quadratic scans give for short lists",
 		"merged weights: exact for an edge without parallel partner, for unweighted graphs and for small dyadic weights; otherwise within 4*(cnt-1)*2^-53*sum|w| of the exact sum",
 		"weights are any float64 except NaN: parallel edges with infinite weights of one sign sum to that infinity, of both signs to NaN; for finite weights near MaxFloat64 no order of summation is assumed: +Inf (-Inf) is accepted whenever the positive (negative) weights alone reach the overflow threshold, NaN only when both do, a finite result must be within the allowance of the exact sum",
 		"the library sees a graph as a pointer to a struct, as its own graph.IntGraph or as a struct value (the latter two are not comparable with ==), the same for both arguments of Equal; Equal(g, g) is true",
@@ -3896,7 +4111,12 @@ func c18Run(r *mon.Run) {
 		"subgraph-argument-slices-overwritten-after-call", "subgraph-of-subgraph", "subgraph-of-renumbered-subgraph",
 		"subgraph-remove-nothing-from-subgraph", "subgraph-remove-nothing-from-renumbered-subgraph",
 		"library-result-as-input-graph", "library-result-as-input-graph-simplified", "library-result-as-input-graph-scc",
-		"library-result-as-input-graph-bigraph", "library-result-as-input-graph-subgraph")
+		"library-result-as-input-graph-bigraph", "library-result-as-input-graph-subgraph",
+		"large-multigraph-size-at-round-number", "large-multigraph-size-log-uniform",
+		"large-multigraph-parallel-edges-with-other-successors-between", "large-multigraph-nodes>=10000",
+		"large-multigraph-edges>=50000", "large-multigraph-distinct-targets>=10000",
+		"large-multigraph-list>=5000-distinct-successors", "large-multigraph-subgraph", "large-multigraph-dot",
+		"simplify-long-adjacency-list")
 	if err := ref.GSelfTest(); err != nil {
 		r.Inconclusive("reference self-test failed: " + err.Error())
 		return
@@ -4119,6 +4339,46 @@ func c18Run(r *mon.Run) {
 			c.Parts |= c18pDot
 			c.Dot = c18RandDot(w.Rng, ladj)
 			w.Hit("large-graph-dot")
+		}
+		c18Judge(w, c)
+	})
+
+	// E2: random multigraphs of 1000..100000 nodes (scale-triggered behaviour:
+	// blocks, caches, flushes, counters): sizes at and just beyond round
+	// numbers, then log-uniform sizes
+	msizes := []int{1000, 1024, 1025, 2048, 2049, 4096, 4097, 5000, 5001, 8192, 8193, 10000, 10001, 16384, 16385, 20000, 32768, 32769, 50000, 65536, 65537, 100000}
+	nround := len(msizes) * len(c18MultiShapes) * r.Pick(1, 3)
+	r.Parallel("large-multigraphs", nround+r.Pick(24, 400), func(w *mon.W, i int) {
+		rng := w.Rng
+		shape := c18MultiShapes[i%len(c18MultiShapes)]
+		var n int
+		if i < nround {
+			n = msizes[(i/len(c18MultiShapes))%len(msizes)]
+			w.Hit("large-multigraph-size-at-round-number")
+		} else {
+			n = int(rng.LogUniform(1000, 100000))
+			w.Hit("large-multigraph-size-log-uniform")
+		}
+		param := uint64(i)*1000003 + rng.Uint64()%1000
+		ladj, root := c18Shape(shape, n, param)
+		c := &c18Case{Kind: "large", Shape: shape, N: n, Param: param, Roots: []int{root, rng.Intn(n)},
+			Parts: c18pOrders | c18pSCC | c18pSimp | c18pBi | c18pEqual, Rep: rng.PickI(0, 0, 0, 2, 2, 1),
+			WtSeed: 1 + rng.Uint64()>>1}
+		w.Hit("large-" + shape)
+		c18MultiClasses(w, ladj)
+		c.EqD = c18LargeDeltas(rng, ladj)
+		if n <= 20000 || i%4 == 0 {
+			c.Parts |= c18pSub
+			c.Sub = c18RandSub(rng, ladj)
+			if c.Sub.Nest == nil && i%2 == 0 {
+				c.Sub.Nest = c18RandNest(rng, ladj, c.Sub)
+			}
+			w.Hit("large-multigraph-subgraph")
+		}
+		if n <= 20000 && i%4 == 1 {
+			c.Parts |= c18pDot
+			c.Dot = c18RandDot(rng, ladj)
+			w.Hit("large-multigraph-dot")
 		}
 		c18Judge(w, c)
 	})
